@@ -605,8 +605,8 @@ def checkC16 (sh : N → String) (d : List (Cycle N)) (n : Nat) (tbl : List (Lis
   else
     let width := tbl.foldl (fun m r => max m r.length) (d.length + 1)
     checkRows sh d tbl width 1 n
--- TODO(proof) checkC16_iff : Function.Injective sh → (∀ u, ':' ∉ (sh u).toList … not even needed: the label is
---     one character) → (checkC16 sh d n tbl = none ↔ C16_Holds sh d n tbl)
+-- TODO(proof) checkC16_iff : Function.Injective sh → (checkC16 sh d n tbl = none ↔ C16_Holds sh d n tbl)
+--   (the label is a single character, so `L.code ++ ":" ++ sh u` determines `(L, u)` for injective `sh`)
 
 /-- every instruction `< n` appears, in one unit with one label per cycle, over contiguous cycles, and nothing
 else appears (what C03's `routeOK` gives for a finished simulation) -/
